@@ -59,6 +59,7 @@ type Run struct {
 	distinct    map[string]map[string]struct{}
 	exhaustive  bool
 	capsHit     []string
+	shardViol   []pviol // non-nil in a shard worker: violations are forwarded to the parent
 }
 
 // New starts a run. level ∈ exploration|fault_enumeration|model_checking.
@@ -88,6 +89,11 @@ func New(id, level string) *Run {
 		}
 	}
 	r.deadline = r.start.Add(budget)
+	if s := os.Getenv("VERIF_DEADLINE_UNIX"); s != "" {
+		if n, err := strconv.ParseInt(s, 10, 64); err == nil {
+			r.deadline = time.Unix(n, 0)
+		}
+	}
 	b, err := os.ReadFile(filepath.Join(Root, "known_findings.json"))
 	if err == nil {
 		var all []finding
@@ -173,6 +179,12 @@ func (r *Run) Assume(s string) { r.mu.Lock(); r.assumptions = append(r.assumptio
 func (r *Run) Violation(sig, what string, replay any) bool {
 	r.mu.Lock()
 	defer r.mu.Unlock()
+	if r.shardViol != nil {
+		if len(r.shardViol) < 50 {
+			r.shardViol = append(r.shardViol, pviol{sig, what, replay})
+		}
+		return true
+	}
 	for _, f := range r.known {
 		if f.Key == sig {
 			if !r.knownHit[sig] {
